@@ -499,7 +499,7 @@ def local_scrubs(P):
                 t = scrub_target(ev)
                 if not t or t not in types:
                     continue
-                per.setdefault(re.sub(r'\d+', 'N', types[t]), set()).add(t)
+                per.setdefault(re.sub(r'\d+', 'N', re.sub(r'\(unnamed (\w+) at [^)]*\)', r'(unnamed \1)', types[t])), set()).add(t)
                 calls.append((f, ev, t, types[t]))
             if per:
                 res[f.name] = {k: len(v) for k, v in per.items()}
